@@ -880,9 +880,7 @@ def gen_lp(rng, tier='quick', ints=False, outcome='optimal', patterns=None, fron
         sense = ['le', 'ge', 'eq'][int(rng.integers(3))]
         y = rng.uniform(0, 1.5, k) * (rng.random(k) < 0.7)
         if sense == 'eq':
-            for r_ in range(k):
-                if not A[r_].any():      # ECOS crashes natively on an all-zero equality row
-                    A[r_, int(rng.integers(nx))] = 1.0
+            # (all-zero equality rows are kept: ECOS used to crash on them, fixed in cf1cf06)
             b = A @ xstar
             c = c + A.T @ rng.uniform(-1, 1, k)
         elif sense == 'le':
